@@ -8,6 +8,7 @@
 //        ref <id> na <na> alpha <hex..> res <hex..> chosen <a> feasible <0|1> x <hex..> H1 <k> <ints> residual <hex>
 //        out <id> ret <0|1> x <hex..> H1 <k> <ints> residual <hex> calcs <n> consumed <n> steps <n> trace <tid:K ...>
 //     or  fail <id> <what + thread states | trace>    and the process exits (the caller restarts after it)
+//   C12_harness nnls       stdin: case <id> n <n> m <m> seed <s> corr <c> threads <list..>;  stdout: nnlsbegin/nnlsend <id> <T> n <n> x <hex..>
 //   C12_harness fit        stdin: case <id> dim <1|2> ns <samples/dim> nk <knots/dim> order <o> mono <dim> shape <k> noise <seed> threads <list..>
 //     stdout:  fitbegin <id> <T> ... (library's verbose output) ... fitend <id> <T> ncoef <n> coef <hex32..>
 #include <cstdio>
@@ -24,6 +25,7 @@
 #include <cholmod.h>
 #include "photospline/splinetable.h"
 #include "cholesky_solve.h"
+#include "photospline/detail/splineutil.h"
 #include "C12_sched.h"
 
 static double unhex(const std::string &s) { uint64_t u = strtoull(s.c_str(), nullptr, 16); double d; memcpy(&d, &u, 8); return d; }
@@ -189,10 +191,52 @@ static int run_fit()
 	return 0;
 }
 
+// random dense NNLS problems straight into nnls_normal_block3 (the solver behind fit(..., monodim)); these reach
+// walk_descents far more often than small spline fits do
+static int run_nnls()
+{
+	std::string line;
+	while (std::getline(std::cin, line)) {
+		std::istringstream in(line);
+		std::string tok, id;
+		long n = 6, m = 10; uint64_t seed = 1; double corr = 0.5; std::vector<int> threads;
+		if (!(in >> tok) || tok != "case") continue;
+		in >> id;
+		while (in >> tok) {
+			if (tok == "n") in >> n; else if (tok == "m") in >> m; else if (tok == "seed") in >> seed; else if (tok == "corr") in >> corr;
+			else if (tok == "threads") { int t; while (in >> t) threads.push_back(t); }
+		}
+		sm_state = seed * 0x9E3779B97F4A7C15ULL + 777;
+		std::vector<double> A(m * n), b(m);
+		for (long i = 0; i < m; i++) { double common = sm_unit(); for (long j = 0; j < n; j++) A[i * n + j] = corr * common + (1 - corr) * sm_unit(); b[i] = 2.0 * sm_unit() - 0.7; }
+		for (int T : threads) {
+			cholmod_common c;                       // fresh per solve, as in fit(): CHOLMOD keeps history-dependent state in it
+			cholmod_l_start(&c);
+			cholmod_dense *Ad = cholmod_l_allocate_dense(n, n, n, CHOLMOD_REAL, &c);
+			for (long j = 0; j < n; j++) for (long k = 0; k < n; k++) { double v = (j == k) ? 1e-9 : 0.0; for (long i = 0; i < m; i++) v += A[i * n + j] * A[i * n + k]; ((double *)Ad->x)[j + k * n] = v; }
+			cholmod_sparse *AtA = cholmod_l_dense_to_sparse(Ad, 1, &c);
+			cholmod_l_free_dense(&Ad, &c);
+			cholmod_dense *Atb = cholmod_l_allocate_dense(n, 1, n, CHOLMOD_REAL, &c);
+			for (long j = 0; j < n; j++) { double v = 0; for (long i = 0; i < m; i++) v += A[i * n + j] * b[i]; ((double *)Atb->x)[j] = v; }
+			char nb[16]; snprintf(nb, sizeof nb, "%d", T);
+			unsetenv("GOTO_NUM_THREADS"); setenv("OMP_NUM_THREADS", nb, 1);
+			printf("nnlsbegin %s %d\n", id.c_str(), T); fflush(stdout);
+			cholmod_dense *x = nnls_normal_block3(AtA, Atb, 1, &c);
+			printf("\nnnlsend %s %d n %ld x", id.c_str(), T, n);
+			for (long j = 0; j < n; j++) printf(" %s", hexd(((double *)x->x)[j]).c_str());
+			printf("\n"); fflush(stdout);
+			cholmod_l_free_dense(&x, &c); cholmod_l_free_dense(&Atb, &c); cholmod_l_free_sparse(&AtA, &c);
+			cholmod_l_finish(&c);
+		}
+	}
+	return 0;
+}
+
 int main(int argc, char **argv)
 {
 	if (argc >= 2 && !strcmp(argv[1], "sched")) return run_sched();
 	if (argc >= 2 && !strcmp(argv[1], "fit")) return run_fit();
+	if (argc >= 2 && !strcmp(argv[1], "nnls")) return run_nnls();
 	fprintf(stderr, "usage: C12_harness sched|fit\n");
 	return 2;
 }
